@@ -5,26 +5,64 @@
    top-level return) one at a time to a persistent session produces the same output and the same
    final globals as evaluating the script in one go."
 
-   Session-level model, stated over an abstract deterministic session semantics that keeps exactly
-   the mechanisms that make the preconditions necessary (repl.evalOne / eval.DefineMacros):
+   Session-level model over an abstract deterministic session semantics that keeps exactly the
+   mechanisms of repl.evalOne / eval.DefineMacros / eval.ExpandMacros that chunking can expose:
 
-     * one input = one chunk of consecutive top-level statements;
-     * DefineMacros first collects EVERY macro definition of the chunk (they are removed from the
-       program), then the remaining statements are evaluated in order  -> macro definitions are
-       hoisted to the start of their chunk;
-     * evaluation of a chunk stops at the first error and at a top-level return; the session
-       (globals, macros, output so far) persists and the next chunk is evaluated regardless.
+     * one input = one chunk of consecutive top-level statements; evaluation of a chunk stops at
+       the first error and at a top-level return; the session (globals, macro table, output so
+       far) persists and the next chunk is evaluated regardless;
+     * MACRO DEFINITIONS.  By design a definition takes effect where it stands: definition and
+       expansion proceed in source order, which is what one statement at a time does, so a chunk
+       boundary cannot be seen (Dev = {}: ChunkingIsInvisible holds for every eligible script,
+       including scripts that define a macro name again, or define a macro named like an earlier
+       function, between two uses).  THE IMPLEMENTATION (Dev contains "hoist-definitions"):
+       DefineMacros first collects EVERY macro definition of the chunk (removing them from the
+       program; the last definition of a name wins), then the remaining statements are expanded
+       and evaluated  -> definitions are hoisted to the start of their chunk.  That is why the
+       statement needs "macros defined before use" (a hoisted definition makes a use in front of
+       it work in the whole script and fail one statement at a time) - and it is a deviation
+       where a definition follows a use that another definition (or a function of that name)
+       served: HoistSensitive scripts, `m = macro..+100; println(m(g)); m = macro..+200;
+       println(m(g))` prints 201 201 at once and 101 201 one statement at a time.  The run with
+       Dev = {"hoist-definitions"} must violate ChunkingIsInvisible; HoistingSeenOnlyThere says
+       that the two semantics agree on every other eligible script.
+     * THE EXPANSION PASS.  A statement evaluated while the macro table is not empty is rewritten
+       by eval.ExpandMacros, i.e. ast.Modify builds a COPY of every node, whether or not a macro
+       is used in it; otherwise it is evaluated from the parser's own tree.  A function value
+       keeps the tree it was built from (its text is what println(f), the saved globals and the
+       memoization key show), so every function value carries one bit of hidden state: built from
+       a copied tree (fc) or from the original.  With hoisting the whole script is copied as soon
+       as it defines a macro ANYWHERE; fed one statement at a time, the statements in front of the
+       first macro definition are not.  The design says the copy is faithful (Text ignores fc);
+       Dev = {"hoist-definitions", "copy-alters-text"} is the deviation "the copy of a node loses
+       or changes something the printer shows", under which TLC finds the shortest counterexample
+       (def1, mdef1 split in two).
 
    Abstract statements (the harness instantiates them as grol source):
      set    g = 1              inc    g = g + 1            print  println(g)
      def1   f = func() {g+10}  def2   f = func() {g+20}    call   println(f())
+     show   println(f)         the TEXT of the function value is printed
      mdef1  m = macro(x) {quote(unquote(x)+100)}           mdef2  .. +200
-     muse   println(m(g))      ret    return               err    error("boom")
-   Session state: g (-1 = not set), f, m (0 = not defined), out (sequence of printed numbers).
+     mfun   m = func(x) {x + 300}   the NAME m as an ordinary function
+     muse   println(m(g))      a macro call if the macro table knows m, else a function call
+     ret    return             err    error("boom")
+   Session state: g (-1 = not set), f, fc (f was built from a copied tree), m (macro table: 0 = not
+   defined), mf (the global m is a function), out (sequence of printed numbers; a printed function
+   text is the number Text(s) >= 1000).
+
+   Function bodies.  def1 / def2 stand for `f = <a function that returns g + 10 / g + 20>`; HOW the
+   body is written is the script's `form`, one of Forms (a subset of DOMAIN FormTable).  The
+   semantics above does not depend on it - that is the point: whatever syntax a function is made
+   of, its value and its text are the same in every split.  FormTable names, per form, the node
+   kinds (vocabulary of the harness' AST dump plus refinements like "fn.lambda", "fn.nested")
+   that the form's source must contain; CopyKinds is the list of node kinds the expansion pass
+   copies (one per case of ast.Modify, plus the fields a copy has to carry over), and
+   FormsCoverCopy demands that the forms of a run with all forms exercise every one of them.
+   The harness owns the source text of each form and checks it against FormTable (the parsed
+   source must contain every kind the table claims).
 
    Submit(s, chunk) is one input.  The law behind the property is
-       Submit(Submit(s, a), b) = Submit(s, a \o b)       (when a does not end in an error / return
-                                                          and b defines no macro that a already uses)
+       Submit(Submit(s, a), b) = Submit(s, a \o b)       (when a does not end in an error / return)
    and ChunkingIsInvisible states its consequence: for an eligible script EVERY one of the 2^(n-1)
    splits into consecutive chunks yields the observation of the whole script.  RestIsWhole is the
    inductive form (from every reachable intermediate session, submitting the rest in one go gives
@@ -33,52 +71,113 @@
    TLC explores, for every eligible script of up to MaxN statements over Kinds and for the
    canonical scripts of length MaxN+1..SplitN, every split (the chunk boundaries chosen so far are
    part of the state), checks the invariants, and emits every complete split as
-       [script, cuts, out, g, f]
+       [script, form, kinds, cuts, out, g, f, err, hoistsens, hoisted]
+   (hoistsens = HoistSensitive(script), hoisted = what the whole script prints under hoisting)
    which the harness (a) replays on the real interpreter (script instantiated as grol source,
    chunk by chunk through repl.EvalOne on one persistent eval.State versus at once on a fresh one)
    and (b) uses as THE generator of splits for random scripts of n <= SplitN statements.
 
-   Relax drops one precondition at a time; TLC then finds the counterexample that shows why the
-   property states it: "errors" (whole stops at the error, chunks go on), "return" (same for a
-   top-level return), "use-before-def" (the whole script hoists the definition in front of the use,
-   a session that has not seen it yet fails), "redef-after-use" (the whole script hoists the second
-   definition in front of the first use).                                                         *)
+   Relax drops one precondition at a time (under the implementation's semantics, Dev =
+   {"hoist-definitions"}); TLC then finds the counterexample that shows why the property states it:
+   "errors" (whole stops at the error, chunks go on), "return" (same for a top-level return),
+   "use-before-def" (the whole script hoists the definition in front of the use, a session that
+   has not seen it yet fails).                                                                   *)
 EXTENDS Integers, Sequences, FiniteSets, TLC, Json, GrolPrims
 
 CONSTANTS Kinds,    \* abstract statement kinds used for the exhaustive scripts
           MaxN,     \* exhaustive scripts up to this length
           SplitN,   \* canonical scripts up to this length (all splits)
           Relax,    \* subset of {"errors", "return", "use-before-def", "redef-after-use"}
+          Forms,    \* how the bodies of def1 / def2 are written: subset of DOMAIN FormTable
+          Dev,      \* subset of {"copy-alters-text"}: deviations of the expansion pass
           EmitOn
 
-VARIABLES script, pos, sess, anyErr, cuts
-vars == <<script, pos, sess, anyErr, cuts>>
+VARIABLES script, form, pos, sess, anyErr, cuts
+vars == <<script, form, pos, sess, anyErr, cuts>>
 
-AllKinds == {"set", "inc", "print", "def1", "def2", "call", "mdef1", "mdef2", "muse", "ret", "err"}
+AllKinds == {"set", "inc", "print", "def1", "def2", "call", "show", "mdef1", "mdef2", "mfun", "muse", "ret", "err"}
 MDefs == {"mdef1", "mdef2"}
+FDefs == {"def1", "def2"}
 MVer(k) == IF k = "mdef1" THEN 1 ELSE 2
 
-\* ------------------------------------------------------------------ abstract session semantics
-S0 == [g |-> -1, f |-> 0, m |-> 0, out |-> <<>>]
+\* ------------------------------------------------------------------ the forms of a function body
+\* node kinds the expansion pass copies (ast.Modify: one per case, plus the fields that a copy must carry over)
+CopyKinds == {"id", "int", "float", "bool", "str", "cmt", "brk", "cnt", "ret", "ret.bare", "pre", "post",
+              "inf", "asg", "asg.def", "if", "if.else", "if.elseif", "for", "fn", "fn.lambda", "fn.named", "fn.variadic",
+              "fn.nested", "fn.params", "call", "call.expr", "arr", "map", "map.multi", "dot", "idx", "idx.slice", "bi"}
+FormTable == [
+  plain    |-> {"fn", "inf", "id", "int", "asg"},            \* func() {g + 10}
+  curried  |-> {"fn.lambda", "fn.nested", "fn.params", "call.expr"},   \* a => b => a + b, add(g)(10)
+  lamblock |-> {"fn.lambda", "fn.nested", "fn.params"},       \* (a, b) => {a + b}
+  lambda0  |-> {"fn.lambda", "fn.nested"},                     \* f itself is () => .. holding another () => ..
+  named    |-> {"fn.named", "fn.nested", "fn.params"},         \* func inner(a) {..} inside the body
+  toplevel |-> {"fn.named"},                                   \* func f() {..} as a statement
+  variadic |-> {"fn.variadic", "fn.nested", "bi"},             \* func(a, ..) {.. len(..)}
+  closure  |-> {"fn.nested", "call.expr", "fn.params"},        \* mk = func(v) {func(y) {y + v}}; mk(10)(g)
+  iife     |-> {"fn.lambda", "fn.nested", "call.expr"},        \* (x => x + 10)(g)
+  lamarg   |-> {"fn.lambda", "fn.nested", "call"},             \* ap(x => x + 10, g)
+  recur    |-> {"fn.named", "fn.nested", "ret", "if"},         \* func fact(n) {if n <= 1 {return 1}; n * fact(n - 1)}
+  mapfn    |-> {"map", "fn.lambda", "fn.nested", "dot"},       \* {"h": x => x + 10}.h(g)
+  maplit   |-> {"map", "map.multi", "arr", "float", "bool", "str", "idx"},
+  dotted   |-> {"map", "dot"},                                 \* m.k.j
+  indexed  |-> {"arr", "idx", "pre"},                          \* a[1], a[-1][0]
+  sliced   |-> {"arr", "idx.slice", "bi"},                     \* a[2:], a[0:1], a[1:2]
+  ifelse   |-> {"if", "if.else", "if.elseif"},
+  forcount |-> {"for", "brk", "cnt", "post"},                  \* for i = 10 {.. break .. continue}
+  forcond  |-> {"for", "post"},                                \* for n < 10 {n++}
+  returns  |-> {"ret", "ret.bare", "if"},
+  prefixes |-> {"pre", "bool", "if.else"},                     \* -x, !b
+  postfix  |-> {"post"},                                       \* x++, x--
+  strings  |-> {"str", "bi"},                                  \* escapes, a raw string
+  floats   |-> {"float", "call"},
+  parens   |-> {"inf"},                                        \* (g + 5) * 2 - g: grouping must survive
+  comments |-> {"cmt"},                                        \* block and line comments inside the body
+  builtins |-> {"bi", "arr"},                                  \* first rest len
+  quoted   |-> {"bi", "fn.lambda"},                            \* q = quote(a => a + 1)
+  defines  |-> {"asg.def", "asg", "idx", "dot"},               \* x := g; a[0] = ..; m.k = ..
+  logic    |-> {"inf", "bool", "pre"}                          \* && || == != <= with !
+]
+AllForms == DOMAIN FormTable
+KindsOf(fs) == UNION {FormTable[fm] : fm \in fs}
+FormsCoverCopy == (Forms = AllForms) => CopyKinds \subseteq KindsOf(Forms)
+ASSUME Forms \subseteq AllForms /\ Forms # {}
+ASSUME FormsCoverCopy
+ASSUME Dev \subseteq {"hoist-definitions", "copy-alters-text"}
+ASSUME Relax \subseteq {"errors", "return", "use-before-def"}
+Hoist == "hoist-definitions" \in Dev
 
-\* one statement: [s |-> new session, c |-> "ok" | "err" | "ret"]
-Exec(s, k) ==
+\* ------------------------------------------------------------------ abstract session semantics
+\* m: the macro table's entry for the name m (0 = none; it is never removed); mf: the GLOBAL m is an ordinary function
+S0 == [g |-> -1, f |-> 0, fc |-> FALSE, m |-> 0, mf |-> 0, out |-> <<>>]
+
+\* the text of the function value as an observer reads it (println(f), the saved globals): which definition it is.
+\* By design it does not depend on fc (the copy made by the expansion pass prints like the original).
+Text(s) == IF s.f = 0 THEN 0 ELSE 1000 + 10 * s.f + (IF s.fc /\ "copy-alters-text" \in Dev THEN 1 ELSE 0)
+
+\* one statement: [s |-> new session, c |-> "ok" | "err" | "ret"]; x = the statement went through the expansion pass
+Exec(s, k, x) ==
   CASE k = "set"   -> [s |-> [s EXCEPT !.g = 1], c |-> "ok"]
     [] k = "inc"   -> IF s.g < 0 THEN [s |-> s, c |-> "err"] ELSE [s |-> [s EXCEPT !.g = @ + 1], c |-> "ok"]
     [] k = "print" -> IF s.g < 0 THEN [s |-> s, c |-> "err"] ELSE [s |-> [s EXCEPT !.out = Append(@, s.g)], c |-> "ok"]
-    [] k = "def1"  -> [s |-> [s EXCEPT !.f = 1], c |-> "ok"]
-    [] k = "def2"  -> [s |-> [s EXCEPT !.f = 2], c |-> "ok"]
+    [] k = "def1"  -> [s |-> [s EXCEPT !.f = 1, !.fc = x], c |-> "ok"]
+    [] k = "def2"  -> [s |-> [s EXCEPT !.f = 2, !.fc = x], c |-> "ok"]
+    [] k = "show"  -> IF s.f = 0 THEN [s |-> s, c |-> "err"] ELSE [s |-> [s EXCEPT !.out = Append(@, Text(s))], c |-> "ok"]
     [] k = "call"  -> IF s.f = 0 \/ s.g < 0 THEN [s |-> s, c |-> "err"]
                       ELSE [s |-> [s EXCEPT !.out = Append(@, s.g + 10 * s.f)], c |-> "ok"]
-    [] k = "muse"  -> IF s.m = 0 \/ s.g < 0 THEN [s |-> s, c |-> "err"]
-                      ELSE [s |-> [s EXCEPT !.out = Append(@, s.g + 100 * s.m)], c |-> "ok"]
+    [] k = "mfun"  -> [s |-> [s EXCEPT !.mf = 1], c |-> "ok"]
+    \* m(g): a macro call when the macro table knows m (whatever the global m is), else a call of the function m
+    [] k = "muse"  -> IF s.g < 0 \/ (s.m = 0 /\ s.mf = 0) THEN [s |-> s, c |-> "err"]
+                      ELSE [s |-> [s EXCEPT !.out = Append(@, s.g + (IF s.m # 0 THEN 100 * s.m ELSE 300))], c |-> "ok"]
     [] k = "ret"   -> [s |-> s, c |-> "ret"]
     [] k = "err"   -> [s |-> s, c |-> "err"]
 
-RECURSIVE Run(_, _)       \* the statements of a chunk in order, until an error or a return
+\* the statements of a chunk in source order, until an error or a return.  A macro definition takes effect where it
+\* stands; every other statement goes through the expansion pass iff the macro table is not empty at that point.
+RECURSIVE Run(_, _)
 Run(s, ks) ==
   IF ks = <<>> THEN [s |-> s, err |-> FALSE]
-  ELSE LET r == Exec(s, Head(ks)) IN
+  ELSE IF Head(ks) \in MDefs THEN Run([s EXCEPT !.m = MVer(Head(ks))], Tail(ks))
+  ELSE LET r == Exec(s, Head(ks), s.m # 0) IN
        IF r.c = "err" THEN [s |-> r.s, err |-> TRUE]
        ELSE IF r.c = "ret" THEN [s |-> r.s, err |-> FALSE]
        ELSE Run(r.s, Tail(ks))
@@ -87,30 +186,50 @@ RECURSIVE LastMacro(_, _)  \* DefineMacros: every definition of the chunk, in or
 LastMacro(m, ks) == IF ks = <<>> THEN m ELSE LastMacro(IF Head(ks) \in MDefs THEN MVer(Head(ks)) ELSE m, Tail(ks))
 NotMDef(k) == k \notin MDefs
 
-Submit(s, chunk) == Run([s EXCEPT !.m = LastMacro(s.m, chunk)], SelectSeq(chunk, NotMDef))
+\* one input.
+\*   by design (hoist = FALSE): definition and expansion proceed in source order - exactly what feeding the statements
+\*     of the chunk one at a time does, so chunking cannot be seen;
+\*   the implementation (hoist = TRUE; eval.DefineMacros, then eval.ExpandMacros over the whole chunk): EVERY macro
+\*     definition of the chunk is collected and removed first (the last one of a name wins), then the remaining
+\*     statements are expanded and evaluated.  A chunk of one statement is the same under both.
+SubmitD(s, chunk, hoist) ==
+  IF hoist THEN Run([s EXCEPT !.m = LastMacro(s.m, chunk)], SelectSeq(chunk, NotMDef))
+  ELSE Run(s, chunk)
+Submit(s, chunk) == SubmitD(s, chunk, Hoist)
 
-\* what an observer compares: printed output, whether any input failed, the saved globals (macros are not saved)
-Obs(s, e) == [out |-> s.out, err |-> e, g |-> s.g, f |-> s.f]
-Whole(sc) == LET r == Submit(S0, sc) IN Obs(r.s, r.err)
+\* what an observer compares: printed output, whether any input failed, the saved globals (g, f as its text, whether
+\* m is a function; macros are not saved)
+Obs(s, e) == [out |-> s.out, err |-> e, g |-> s.g, f |-> Text(s), mf |-> s.mf]
+WholeD(sc, hoist) == LET r == SubmitD(S0, sc, hoist) IN Obs(r.s, r.err)
+Whole(sc) == WholeD(sc, Hoist)
 
 \* ------------------------------------------------------------------ the property's preconditions
 ErrorFree(sc)  == ~Submit(S0, sc).err
 NoReturn(sc)   == \A i \in 1..Len(sc) : sc[i] # "ret"
-DefBeforeUse(sc) == \A i \in 1..Len(sc) : sc[i] = "muse" => \E j \in 1..i - 1 : sc[j] \in MDefs
-NoRedefAfterUse(sc) == \A i, j \in 1..Len(sc) : (i < j /\ sc[i] = "muse" /\ sc[j] \in MDefs) =>
-                          \A h \in 1..i - 1 : sc[h] \in MDefs => sc[h] = sc[j]     \* the same definition again is harmless
+\* "macros defined before use": a call of m comes after something that defines m (with in-order definition this is
+\* implied by ErrorFree; it is a precondition of its own because hoisting makes a use before the definition work)
+DefBeforeUse(sc) == \A i \in 1..Len(sc) : sc[i] = "muse" => \E j \in 1..i - 1 : sc[j] \in MDefs \cup {"mfun"}
 Eligible(sc) ==
   /\ ("errors" \in Relax \/ ErrorFree(sc))
   /\ ("return" \in Relax \/ NoReturn(sc))
   /\ ("use-before-def" \in Relax \/ DefBeforeUse(sc))
-  /\ ("redef-after-use" \in Relax \/ NoRedefAfterUse(sc))
 
-Canon == <<"set", "mdef1", "def1", "muse", "inc", "call", "def2", "print", "muse", "call">>
+\* where hoisting can be seen in an eligible script: a macro definition FOLLOWS a use of the name that was expanded by
+\* another definition (or called the function m).  Every use is preceded by a definition, so the statement covers
+\* these scripts; the implementation's whole-script evaluation applies the later definition to the earlier use.
+HoistSensitive(sc) == \E i, j \in 1..Len(sc) : /\ i < j /\ sc[i] = "muse" /\ sc[j] \in MDefs
+                                               /\ LastMacro(0, SubSeq(sc, 1, i - 1)) # MVer(sc[j])
+
+\* canonical long script: a function defined before the first macro definition, read as text and called after it,
+\* redefined later
+Canon == <<"set", "def1", "mdef1", "show", "call", "muse", "inc", "def2", "show", "call">>
 Scripts == {sc \in UNION {[1..n -> Kinds] : n \in 1..MaxN} : Eligible(sc)}
            \cup {SubSeq(Canon, 1, n) : n \in (MaxN + 1)..SplitN}
+HasFDef(sc) == \E i \in 1..Len(sc) : sc[i] \in FDefs
 
 \* ------------------------------------------------------------------ the machine: choose the next chunk boundary
 Init == /\ script \in Scripts
+        /\ form \in (IF HasFDef(script) THEN Forms ELSE {CHOOSE fm \in Forms : TRUE})   \* a script without a function has no form
         /\ pos = 0 /\ sess = S0 /\ anyErr = FALSE /\ cuts = <<>>
 
 Chunk(k) ==
@@ -119,15 +238,17 @@ Chunk(k) ==
   /\ anyErr' = (anyErr \/ r.err)
   /\ pos' = k
   /\ cuts' = Append(cuts, k)
-  /\ UNCHANGED script
+  /\ UNCHANGED <<script, form>>
   /\ (EmitOn /\ k = Len(script)) =>
-        EmitLine(ToJson([script |-> script, cuts |-> cuts', out |-> r.s.out, g |-> r.s.g, f |-> r.s.f, err |-> (anyErr \/ r.err)]))
+        EmitLine(ToJson([script |-> script, form |-> form, kinds |-> FormTable[form], cuts |-> cuts', out |-> r.s.out,
+                         g |-> r.s.g, f |-> r.s.f, err |-> (anyErr \/ r.err),
+                         hoistsens |-> HoistSensitive(script), hoisted |-> WholeD(script, TRUE).out]))
 
 Next == \E k \in (pos + 1)..Len(script) : Chunk(k)
 Spec == Init /\ [][Next]_vars
 
 \* ------------------------------------------------------------------ properties
-TypeOK == /\ pos \in 0..Len(script) /\ anyErr \in BOOLEAN
+TypeOK == /\ pos \in 0..Len(script) /\ anyErr \in BOOLEAN /\ form \in Forms /\ sess.fc \in BOOLEAN /\ sess.mf \in 0..1 /\ sess.m \in 0..2
           /\ \A i \in 1..Len(cuts) : cuts[i] \in 1..Len(script) /\ (i > 1 => cuts[i - 1] < cuts[i])
           /\ (Len(cuts) > 0 => cuts[Len(cuts)] = pos)
 
@@ -141,4 +262,7 @@ RestIsWhole ==
 
 \* an eligible script never fails in any chunk
 NoChunkFails == (Relax = {}) => ~anyErr
+
+\* the two ways of handling definitions agree on every eligible script in which no definition follows a use it changes
+HoistingSeenOnlyThere == (Relax = {} /\ ~HoistSensitive(script)) => WholeD(script, TRUE) = WholeD(script, FALSE)
 =============================================================================
